@@ -1,13 +1,17 @@
 #!/bin/bash
-# try_seed.sh <patch.diff> <check id>... : applies a seeded change to /repo, runs the given quick checks, undoes it.
-patch=$1; shift
-cd /repo && git status --porcelain | grep -q . && { echo "/repo not clean"; exit 2; }
-git -C /repo apply "$patch" || exit 2
+# try_seed.sh <patch.diff> <check id>... : runs the given checks against a scratch worktree of /repo with the seeded change
+# applied (NUCS_REPO / MC_OUT_DIR redirect the checks; /repo itself and /verif/evidence are left untouched), then removes it.
+# Equivalent to: git -C /repo apply <patch>; ./check ...; git -C /repo checkout -- .
+patch=$(readlink -f "$1"); shift
+wt=/tmp/seedrepo.$$
+git -C /repo worktree add -q --detach $wt HEAD || exit 2
+git -C $wt apply "$patch" || { git -C /repo worktree remove --force $wt; exit 2; }
 cd /verif
 for id in "$@"; do
-  out=$(./check $id ${TIER:-quick} 2>&1); rc=$?
+  out=$(NUCS_REPO=$wt MC_OUT_DIR=/tmp/seedout.$$ MC_NBCACHE_ROOT=/tmp/mc-nbcache-seed.$$ ./check $id ${TIER:-quick} 2>&1); rc=$?
   echo "== $id rc=$rc $(echo "$out" | grep -c '^VIOLATION') violation line(s)"
   echo "$out" | grep -A1 '^VIOLATION' | cut -c1-260 | head -${LINES_SHOWN:-6}
+  echo "$out" | grep '^HARNESS' | head -2
 done
-git -C /repo checkout -- .
-git -C /repo status --porcelain | head -2
+git -C /repo worktree remove --force $wt; git -C /repo worktree prune
+rm -rf /tmp/seedout.$$ /tmp/mc-nbcache-seed.$$
